@@ -33,13 +33,18 @@ def sigLt : List (Nat × Nat) → List (Nat × Nat) → Bool
     else if a.2 < b.2 then true else if b.2 < a.2 then false
     else sigLt as bs
 
-/-- `transition_map_to_states.entry(sig).or_default().insert(state)` on a map kept in key order -/
-def insertSig (sig : List (Nat × Nat)) (s : Nat) : List (List (Nat × Nat) × List Nat) → List (List (Nat × Nat) × List Nat)
+/-- a new key goes before the first larger key (`BTreeMap` keeps its keys in order) -/
+def insertNew (sig : List (Nat × Nat)) (s : Nat) : List (List (Nat × Nat) × List Nat) → List (List (Nat × Nat) × List Nat)
   | [] => [(sig, [s])]
-  | (k, g) :: r =>
-    if k = sig then (k, normNat (g ++ [s])) :: r
-    else if sigLt sig k then (sig, [s]) :: (k, g) :: r
-    else (k, g) :: insertSig sig s r
+  | (k, g) :: r => if sigLt sig k then (sig, [s]) :: (k, g) :: r else (k, g) :: insertNew sig s r
+
+/-- `transition_map_to_states.entry(sig).or_default().insert(state)`: an existing key gets the state
+    added to its (sorted) set, otherwise a new entry is created in key order -/
+def insertSig (sig : List (Nat × Nat)) (s : Nat) (m : List (List (Nat × Nat) × List Nat)) :
+    List (List (Nat × Nat) × List Nat) :=
+  if m.any (fun e => e.1 == sig) then
+    m.map fun e => if e.1 == sig then (e.1, normNat (e.2 ++ [s])) else e
+  else insertNew sig s m
 
 /-- `split_group` -/
 def splitGroup (A : Dfa) (P : List (List Nat)) (g : List Nat) : List (List Nat) :=
